@@ -1065,6 +1065,30 @@ func (w *relayWorld) template(k int, ports []int) {
 			w.evChanData(ci, num)
 			w.evSend(ci, &q, true)
 		}
+	case 7: // an allocation owning several channels and permissions ends, by each cause
+		alloc(ci, attrSpec{}, ports[2])
+		nb := 3 + rng.Intn(2)
+		for j := 0; j < nb; j++ {
+			pj := peerSpec{addr: w.peers[(j*2)%len(w.peers)]}
+			if j == 1 {
+				pj = peerSpec{addr: w.peers[1]}
+			}
+			w.evChannelBind(ci, w.newTid(), ok(ci), attrSpec{2, 0x4000 + j}, &pj)
+		}
+		w.evCreatePerm(ci, w.newTid(), ok(ci), []peerSpec{{addr: w.peers[4]}, {addr: w.peers[2]}})
+		switch rng.Intn(4) {
+		case 0:
+			w.evRefresh(ci, w.newTid(), ok(ci), attrSpec{2, 0}, attrSpec{})
+		case 1:
+			w.evTick(at + eps())
+		case 2:
+			v6 := w.cfg.listenerV6 && !w.cfg.strict
+			w.evRelayErr(ports[2], v6)
+		default:
+			w.evTick(verifsim.Pick(rng, []time.Duration{pt + eps(), ct + eps()}))
+			w.evRefresh(ci, w.newTid(), ok(ci), attrSpec{2, 0}, attrSpec{})
+		}
+		w.evTick(ct + pt)
 	case 6: // retransmitted and conflicting Allocate, expiry, re-allocation on the same relay port
 		l := verifsim.Pick(rng, []int{2, 3, 5})
 		tid := w.newTid()
@@ -1161,7 +1185,7 @@ func runRelayHistory(t *testing.T, rng *verifsim.RNG, prop string, nEvents int) 
 		w.freshNonce()
 		ports := []int{49152, 49153, 49154, 49155}
 		if rng.Chance(40) {
-			w.template(rng.Intn(7), ports)
+			w.template(rng.Intn(8), ports)
 		}
 		for i := 0; i < nEvents; i++ {
 			ci := rng.Intn(len(w.clients))
